@@ -410,7 +410,8 @@ def enum_table(text, name, where):
         if not m: refuse(where, f"variant `{v}` of enum {name} is not a unit variant")
         prev = num(m.group(2)) if m.group(2) else prev + 1
         out.append((m.group(1), prev))
-    return out
+    # declaration order is immaterial once the discriminants are computed
+    return sorted(out, key=lambda e: e[1])
 
 def match_arms(text, impl_re, where):
     """the `match` of a From<u16>/TryFrom<u16> impl -> ([(code, variant)], default variant or None for Err)"""
@@ -424,7 +425,11 @@ def match_arms(text, impl_re, where):
         elif re.match(r'[a-z]\w*=>(match|CLASS::try_from)', arm): default = arm.split('=>', 1)[1]   # QTYPE / QCLASS fall through
         else: refuse(where, f"unrecognised match arm: {arm}")
     if default == 'missing': refuse(where, "no default arm")
-    return arms, default
+    # literal arms are pairwise disjoint unless a literal repeats, in which case the first one wins:
+    # the order in which they are written does not matter, so the table is emitted in code order
+    first = {}
+    for code, variant in arms: first.setdefault(code, variant)
+    return sorted(first.items()), default
 
 # ---------------------------------------------------------------- Lean output
 
